@@ -1,3 +1,3 @@
 From Coq Require Import ExtrOcamlBasic NArith List.
 From LV Require Import lib.Conv model.Buffer spec.BufferSpec.
-Extraction "model.ml" conv_roots run_tbl log oof c14_check c14_first_failure t5_premise.
+Extraction "model.ml" conv_roots run_tbl log oof c14_check c14_first_failure t5_premise t1_walk t2_walk t4_walk t5_check copies_of.
